@@ -97,7 +97,7 @@ Proof.
   destruct (fold_left (visit1 g) (barrier_visits g zero' false) (repeat flags0 nm, [])) as [fl1 inv1] eqn:E1. simpl.
   intros Hin Hm Hiso Hv. apply (proj1 (dedup_In _ _)) in Hin. apply filter_In in Hin. destruct Hin as [_ Hs].
   apply negb_true_iff in Hs. unfold shared_with_live in Hs.
-  assert (C : existsb (fun m0 => negb (f_iso (nth m0 (fold_left visit2 (barrier_visits g zero' true) fl1) flags0)) && memn v (lm_verts (gmesh g m0))) (seq 0 nm) = true).
+  assert (C : existsb (fun m0 => negb (f_iso (nth m0 (fold_left visit2 (barrier_visits g zero' false) fl1) flags0)) && memn v (lm_verts (gmesh g m0))) (seq 0 nm) = true).
   { apply existsb_exists. exists m. split; [apply in_seq; lia|]. rewrite Hiso. simpl. apply memn_In. auto. }
   congruence.
 Qed.
